@@ -2,6 +2,7 @@
 # usage: try_seed.sh <seed name> <property>...   apply the seeded patch to /repo, run the checks, undo
 name=$1; shift
 git -C /repo apply /verif/seeded/$name/patch.diff || exit 1
+trap 'git -C /repo checkout -- .' EXIT INT TERM PIPE
 for p in "$@"; do VERIF_DEV_SKIP_KANI=${SKIPKANI:-1} /verif/check $p 2>&1 | cut -c1-400; echo "rc=${PIPESTATUS[0]}"; done
 git -C /repo checkout -- .
 git -C /repo status --short
